@@ -14,5 +14,5 @@ if grep -rnE '\b(Admitted|admit|Axiom|Parameter|Conjecture)\b|Unset Guard|bypass
 fi
 cd ../ocaml
 cp ../coq/extracted/model.ml ../coq/extracted/model.mli .
-ocamlfind ocamlopt -w -a model.mli model.ml driver.ml -o tdfmodel
+ocamlfind ocamlopt -w -a model.mli model.ml driver.ml -o tdfmodel.new && mv -f tdfmodel.new tdfmodel
 echo "setup ok"
